@@ -685,8 +685,9 @@ class ClimateNetwork(GeoNetwork):
         :rtype: 1D Numpy array [index]
         :return: the correlation distance weighted closeness sequence.
         """
-        self.inv_correlation_distance()
-        return self.closeness('inv_correlation_distance')
+        return self._weighted_metric('inv_correlation_distance',
+                                     self.inv_correlation_distance,
+                                     'closeness')
 
     def local_correlation_distance_weighted_vulnerability(self):
         """
@@ -708,8 +709,9 @@ class ClimateNetwork(GeoNetwork):
         :return: the local correlation distance weighted vulnerability
                  sequence.
         """
-        self.inv_correlation_distance()
-        return self.local_vulnerability('inv_correlation_distance')
+        return self._weighted_metric('inv_correlation_distance',
+                                     self.inv_correlation_distance,
+                                     'local_vulnerability')
 
     def _weighted_metric(self, attr: str, calc: Callable, metric: str):
         if not self.find_link_attribute(attr):
